@@ -13,6 +13,8 @@ def fr(x):
 
 
 def act_tokens(a):
+    if a[0] == 'draw':
+        return 'draw'            # which builtin random function is called does not matter to the model
     return ' '.join(str(t) for t in a)
 
 
@@ -87,7 +89,7 @@ def expected(case, start=0, clocks_exact=True):
             if a[0] == 'y':
                 b = b + F(a[1])
                 R[(rid, k + 1)] = (clk, b, b2s(clk, b))
-            elif a[0] in ('hang', 'raise', 'yinf'):
+            elif a[0] in ('hang', 'raise', 'yinf', 'yv'):
                 return
             elif a[0] == 'log':
                 L[rid].append((b, s))
@@ -179,8 +181,10 @@ class Check(common.Check):
                 acts.append(['y', rng.choice(DELTAS)])
                 if rng.random() < 0.5:
                     acts.append(['log'])
-            if rng.random() < 0.08:
-                acts.insert(rng.randrange(len(acts) + 1), ['hang'])
+            if rng.random() < 0.12:
+                # the routine leaves the clock: it yields a non-number (True / False / None / str / object)
+                acts.insert(rng.randrange(len(acts) + 1),
+                            rng.choice([['hang'], ['yv', 'T'], ['yv', 'T'], ['yv', 'F'], ['yv', 'N'], ['yv', 'S'], ['yv', 'O']]))
             if i > 0 and rng.random() < 0.2:
                 # the body fails (the clock logs it and goes on); what follows in this body never runs
                 acts.insert(rng.randrange(len(acts) + 1), ['raise'])
